@@ -90,6 +90,10 @@ def make(kind, kwargs, hidden=None):
         import numpy as np
         v = float(enc(kwargs))
         return [(v, []), (v, np.array([])), (v, {"k": v}), ([], v)][enc(kwargs, "m") % 4]
+    if t == "emptyseq":      # (count, indices) with nothing found: a member that is an empty list / array
+        import numpy as np
+        v = float(enc(kwargs))
+        return [(v, []), (v, np.array([])), ([], v)][enc(kwargs, "m") % 3]
     if t == "nptime":     # numpy scalars that are not numbers: a point in time (ns), a duration, a missing time
         import numpy as np
         m = enc(kwargs, "m") % 5
